@@ -86,6 +86,13 @@ def build_factx():
 
 def build_harness():
     src = os.path.join(VERIF, "harness")
+    if os.path.realpath(REPO) != "/repo":
+        # checking a scratch copy of the repository (VERIF_REPO): build a copy of the harness whose replace points there
+        alt = os.path.join(WORK, "harness-alt")
+        shutil.rmtree(alt, ignore_errors=True)
+        shutil.copytree(src, alt)
+        sh(["go", "mod", "edit", "-replace", "github.com/Canto-Network/Canto/v8=" + os.path.realpath(REPO)], cwd=alt, env=GOENV)
+        src = alt
     shutil.copyfile(os.path.join(REPO, "go.sum"), os.path.join(src, "go.sum"))
     exe = os.path.join(BIN, "harness")
     os.makedirs(BIN, exist_ok=True)
